@@ -52,7 +52,8 @@ class Harness:
         call = "%s::verif::%s(%s)" % (self.crate, self.fn, ", ".join(a[0] for a in self.args))
         out.append("    let r: u32 = %s;" % call)
         for i, c in enumerate(self.covers):
-            out.append('    kani::cover!(r & %d != 0, "%s");' % (1 << i, c))
+            if c is not None:      # None = this witness bit is not expected to be reachable for this instance
+                out.append('    kani::cover!(r & %d != 0, "%s");' % (1 << i, c))
         out.append("}")
         return "\n".join(out)
 
